@@ -25,6 +25,7 @@ TX_EVENTS = ['leaf_split', 'root_split', 'unlink_first', 'unlink_middle',
 
 def must_see(tier):
     m = {'commits': 200, 'aborts': 50, 'commit-only-leaf-registered': 1,
+         'mutate-reassign': 50,
          'commit-after:clear': 1, 'abort-after:clear': 1,
          'commit-after:noop-replace': 1, 'commit-back-to-one-leaf': 1}
     for e in TX_EVENTS:
@@ -101,12 +102,43 @@ def run_history(fam, kind, impl, rng, rec, h):
 
     def after(ls, op, args):
         pass
+    owned = {}      # key -> list object this history stored under it
+
+    def mutate_reassign():
+        """The idiom for plain mutable values: v = t[k]; v.append(x);
+        t[k] = v - storing the SAME object again must register the change
+        (the container cannot know the object was mutated)."""
+        present = ls.m.sorted_keys()
+        live = [k for k in present if k in owned and c.get(k) is owned[k]]
+        if live and rng.random() < .7:
+            k = rng.choice(live)
+            v = owned[k]
+            v.append(len(v))
+            c[k] = v
+            ls.m.d[k] = list(v)
+            ls.log.append(('mutate-reassign', (k, list(v))))
+            rec.ev('mutate-reassign')
+        elif present:
+            k = rng.choice(present)
+            v = ['m']
+            c[k] = v
+            owned[k] = v
+            ls.m.d[k] = list(v)
+            ls.log.append(('store-mutable', (k, list(v))))
+        else:
+            return False
+        rec.evaluations += 1
+        return True
+
     for step in range(n):
         conn.op_index += 1
         before = ls.walk
         nleaves_before = len(before.leaf_keys) if before else 0
         pre = ls.m.contents()
-        if not ls.step():
+        if fam.vc == 'O' and is_mapping and rng.random() < 0.12 and \
+                mutate_reassign():
+            pass
+        elif not ls.step():
             return
         op = ls.log[-1][0]
         w = ls.walk
